@@ -409,7 +409,31 @@ def check_from_count_dict(rep, prog):
     called, derived, pol, count = mt.groups()
     # skip rule
     first = lp.body[0]
-    oks = isinstance(first, ast.If) and ast.unparse(first.test) == 'polarized and (not %s)' % pol and len(first.body) == 1 and isinstance(first.body[0], ast.Continue) and not first.orelse
+
+    def truth(e, env):
+        if isinstance(e, ast.Name) and e.id in env:
+            return env[e.id]
+        if isinstance(e, ast.UnaryOp) and isinstance(e.op, ast.Not):
+            v_ = truth(e.operand, env)
+            return None if v_ is None else not v_
+        if isinstance(e, ast.BoolOp):
+            vals = [truth(v_, env) for v_ in e.values]
+            if None in vals:
+                return None
+            return all(vals) if isinstance(e.op, ast.And) else any(vals)
+        return None
+
+    def skips(test, negate):
+        """the test (negated when it guards the work instead of a `continue`) is true exactly for an unpolarised SNP under polarized=True"""
+        for P in (True, False):
+            for S in (True, False):
+                v_ = truth(test, {'polarized': P, pol: S})
+                if v_ is None or (v_ != negate) != (P and not S):
+                    return False
+        return True
+    oks = isinstance(first, ast.If) and not first.orelse and (
+        (len(first.body) == 1 and isinstance(first.body[0], ast.Continue) and skips(first.test, False)) or
+        (len(lp.body) == 1 and skips(first.test, True)))
     rep.ob('R-DOM', '_from_count_dict unpolarised SNPs', oks, '`if %s`' % ast.unparse(first.test) if isinstance(first, ast.If) else 'no guard', m.rel, first.lineno,
            what='unpolarised SNPs are skipped exactly when a polarised spectrum is requested')
     # what is added to the spectrum per configuration, for 1..3 populations: abstract execution (one symbolic iteration of the
